@@ -6,7 +6,8 @@ RULE = ("two seeded streams. Valid stream: tree-shaped models with pairwise dist
         "sub-propositions (same object or structurally identical copy) — must be accepted. Adversarial stream: a valid model "
         "mutated by one operator: duplicated child, reused explicit id with different bounds / sign / value / children, equal "
         "ids with bounds of equal sum ((0,1) vs (-2,3); (0,3) vs (1,2)) or -1/-2 lower bounds (hash(-1) == hash(-2)), ids "
-        "containing '-', a leaf named like a compound, self reference, reference cycle. errors() compared with the model; "
+        "containing '-', two id-less compounds under different parents whose generated ids coincide (digest of concatenated child "
+        "ids + value + sign) with different or equal definitions, a leaf named like a compound, self reference, reference cycle. errors() compared with the model; "
         "oracle: an independent validator implementing the statement directly on the structural snapshot; non-trivial = the "
         "model has a compound child; distinct = distinct models")
 ASSUMPTIONS = ["graphlib decides acyclicity of the id graph built with dict(list) override semantics (modelled, not proved)",
@@ -101,7 +102,8 @@ def mutate(rng, a):
         return a, "none"
     n = rng.choice(ns)
     op = rng.choice(["dup-child", "bounds-equal-sum", "bounds-minus1-minus2", "reuse-id-children", "reuse-id-value", "reuse-id-sign",
-                     "dash-ids", "leaf-named-like-compound", "self-reference", "cycle", "bounds-different"])
+                     "dash-ids", "leaf-named-like-compound", "self-reference", "cycle", "bounds-different",
+                     "generated-id-coincidence", "generated-id-coincidence"])
     leaf = lambda i, lo, hi: {"c": "var", "id": i, "lo": lo, "hi": hi}
     if op == "dup-child":
         n["args"].append(copy.deepcopy(rng.choice(n["args"])))
@@ -122,6 +124,26 @@ def mutate(rng, a):
         elif op == "reuse-id-value": other["v"] = 2
         else: other["sign"] = -1
         a = {"c": "All", "args": [a, {"c": "Any", "args": [twin, {"c": "str", "id": "zz"}]}, {"c": "Any", "args": [other, {"c": "str", "id": "zy"}]}]}
+    elif op == "generated-id-coincidence":
+        # two compounds WITHOUT explicit ids whose generated ids coincide (the digest is taken over the child ids
+        # concatenated without separator, then str(value)+str(sign)) although their definitions differ — or do not
+        S = lambda i: {"c": "str", "id": i}
+        one, two = rng.choice([
+            ({"c": "All", "args": [S("ab"), S("c")]}, {"c": "All", "args": [S("a"), S("bc")]}),
+            ({"c": "Any", "args": [S("ab"), S("c")]}, {"c": "Any", "args": [S("a"), S("bc")]}),
+            ({"c": "AtLeast", "v": 1, "args": [S("a1")]}, {"c": "AtLeast", "v": 11, "args": [S("a")]}),
+            ({"c": "AtLeast", "v": 2, "args": [S("a"), S("b1")]}, {"c": "AtLeast", "v": 12, "args": [S("a"), S("b")]}),
+            ({"c": "AtMost", "v": 1, "args": [S("p"), S("q-")]}, {"c": "AtLeast", "v": -1, "args": [S("p"), S("q")], "sign": -1}),
+            ({"c": "All", "args": [S("x")]}, {"c": "Any", "args": [S("x")]}),                       # same definition, different class
+            ({"c": "Any", "args": [S("x"), S("y")]}, {"c": "AtLeast", "v": 1, "args": [S("y"), S("x")]}),  # same definition
+            ({"c": "Any", "args": [S("ab"), S("c")]}, {"c": "Any", "args": [S("ab"), S("c")]}),      # identical copies
+        ])
+        if rng.random() < 0.5:
+            one, two = two, one
+        a = {"c": "All", "args": [a, {"c": rng.choice(["Any", "All"]), "args": [one, S("zz")]},
+                                  {"c": rng.choice(["Any", "All", "AtMost"]), "args": [two, S("zy")], **({"v": 1} if False else {})}]}
+        if a["args"][2]["c"] == "AtMost":
+            a["args"][2]["v"] = 1
     elif op == "dash-ids":
         a = {"c": "All", "args": [a, {"c": "Any", "args": [{"c": "str", "id": "b-c"}], "id": "A"}, {"c": "Any", "args": [{"c": "str", "id": "c"}], "id": "A-b"}]}
     elif op == "leaf-named-like-compound":
